@@ -479,12 +479,22 @@ fn op_store(ctx: &mut Ctx, op: &Value, ev: &mut Map<String, Value>) {
 fn relational(sb: &StoreBox, q: &[u32], op: &Value, ev: &mut Map<String, Value>) {
     let lang = sb.lang.clone();
     let (limit, l, r) = (sb.limit, sb.left.clone(), sb.right.clone());
+    // every related store is built and searched on a thread of its own, like the fresh twin of C10: the crate keeps
+    // scratch state in thread-locals (distance matrix, Jaccard buffers), and a store that inherits the state the store
+    // under test has just left behind is not an independent witness of what the records alone determine
     let run = |recs: &[(usize, Vec<u32>, usize)], limit: usize| -> Value {
-        match guarded(|| {
-            let st = fresh_store(&lang, recs, limit, &l, &r);
-            do_search(&st, q)
-        }) {
-            Ok(h) => hits_json(&h),
+        let (lang2, recs2, l2, r2, q2) = (lang.clone(), recs.to_vec(), l.clone(), r.clone(), q.to_vec());
+        let res = std::thread::spawn(move || {
+            panic::catch_unwind(AssertUnwindSafe(|| {
+                let st = fresh_store(&lang2, &recs2, limit, &l2, &r2);
+                hits_json(&do_search(&st, &q2))
+            }))
+            .map_err(panic_message)
+        })
+        .join()
+        .unwrap_or_else(|_| Err("related-store thread died".to_string()));
+        match res {
+            Ok(h) => h,
             Err(msg) => json!([{"id": 0, "title": [], "panic": msg}]),
         }
     };
